@@ -71,16 +71,39 @@ def detectReportFocus (input : Bytes) : Option (Nat × Msg) :=
   else if input == [0x1b, 0x5b, 0x4f] then some (3, .blur)
   else none
 
-/-- the rune loop of detectOneMsg: returns `(i, runes)` (runes in order) -/
-def runeLoop (alt : Bool) : Nat → Bytes → Nat → List Nat → Nat × List Nat
-  | 0, _, i, acc => (i, acc.reverse)
+/-- the rune loop of detectOneMsg: returns `(i, runes, incomplete)`; `incomplete` is the
+early `return 0, nil` taken when the buffer ends inside a multi-byte character and more
+data may follow -/
+def runeLoop (alt more : Bool) : Nat → Bytes → Nat → List Nat → Nat × List Nat × Bool
+  | 0, _, i, acc => (i, acc.reverse, false)
   | fuel + 1, b, i, acc =>
     if i < b.length then
       let (r, rw) := decodeRune (b.drop i)
-      if r == runeError || r ≤ keyUS || r == keyDEL || r == 32 then (i, acc.reverse)
-      else if alt then (i + rw, (r :: acc).reverse)
-      else runeLoop alt fuel b (i + rw) (r :: acc)
-    else (i, acc.reverse)
+      if r == runeError && more && !fullRune (b.drop i) then (i, acc.reverse, true)
+      else if r == runeError || r ≤ keyUS || r == keyDEL || r == 32 then (i, acc.reverse, false)
+      else if alt then (i + rw, (r :: acc).reverse, false)
+      else runeLoop alt more fuel b (i + rw) (r :: acc)
+    else (i, acc.reverse, false)
+
+/-- is `b` a proper (non-empty) prefix of a known sequence: `extSequencePrefixes[string(b)]` -/
+def isProperPrefixOfKey (T : Table) (b : Bytes) : Bool :=
+  T.any (fun e => decide (b.length < e.seq.length) && isPrefix b e.seq)
+
+/-- `isIncompleteEvent(input)` (key_sequences.go): may `input`, which runs to the end of a
+completely filled read buffer, be the beginning of an event whose rest is still unread -/
+def isIncompleteEvent (T : Table) (input : Bytes) : Bool :=
+  match input with
+  | [] => false
+  | b0 :: tl =>
+    if b0 != 0x1b then false
+    else if isProperPrefixOfKey T input then true
+    else match tl with
+      | 0x5b :: rest2 =>
+        if (detectReportFocus input).isSome then true
+        else match rest2 with
+          | 0x4d :: _ => decide (input.length < 6)
+          | _ => ((rest2.dropWhile isParam).dropWhile isInter).isEmpty
+      | _ => false
 
 /-- the mouse prefix of detectOneMsg -/
 def detectMouse (b : Bytes) : Except Panic (Option (Nat × Msg)) :=
@@ -108,12 +131,13 @@ def detectTail (b : Bytes) (more : Bool) : Except Panic (Nat × Option Msg) :=
     if i < b.length && b.getD i 1 == 0 then
       .ok (i + 1, some (.key { type := keyNUL, alt := alt }))
     else
-      let r := runeLoop alt (b.length + 1) b i []
-      if r.1 ≥ b.length && more then .ok (0, none)
-      else if r.2.length > 0 then
+      let r := runeLoop alt more (b.length + 1) b i []
+      if r.2.2 then .ok (0, none)
+      else if r.1 ≥ b.length && more then .ok (0, none)
+      else if r.2.1.length > 0 then
         -- (the KeySpace branch is dead in the source: a space ends the rune loop)
-        let ty := if r.2 == [32] then keySpace else keyRunes
-        .ok (r.1, some (.key { type := ty, runes := r.2, alt := alt }))
+        let ty := if r.2.1 == [32] then keySpace else keyRunes
+        .ok (r.1, some (.key { type := ty, runes := r.2.1, alt := alt }))
       else if alt && b.length == 1 then
         .ok (1, some (.key { type := keyESC }))
       else .ok (1, some (.unknownByte b0))
@@ -121,6 +145,7 @@ def detectTail (b : Bytes) (more : Bool) : Except Panic (Nat × Option Msg) :=
 /-- `detectOneMsg(b, canHaveMoreData)`: `(w, msg)`; `msg = none` is Go's nil. -/
 def detectOneMsg (T : Table) (lens : List Nat) (b : Bytes) (more : Bool) :
     Except Panic (Nat × Option Msg) :=
+  if more && isIncompleteEvent T b then .ok (0, none) else
   match detectMouse b with
   | .error e => .error e
   | .ok (some (w, m)) => .ok (w, some m)
